@@ -45,12 +45,13 @@ pub fn op_chash(arg: &Value) -> Result<Value, String> {
 fn feed(hasher: &mut Box<dyn Hasher>, data: &[u8], mode: &str, consumed: &mut Vec<usize>) -> Result<(), String> {
     if mode == "write" {
         // single `write` calls: record how much each consumed, re-submit the rest like write_all
+        // the loop of io::Write::write_all, recording what each `write` consumed
         let mut rest = data;
-        loop {
+        while !rest.is_empty() {
             let n = hasher.write(rest).map_err(|e| e.to_string())?;
             consumed.push(n);
+            if n == 0 { return Err("WriteZero".into()); }
             rest = &rest[n..];
-            if rest.is_empty() || n == 0 { break; }
         }
         Ok(())
     } else {
